@@ -42,12 +42,25 @@ func checkEngine(id, tier, replay string) int {
 	}
 	base := env.Seed*1000003 + 500000
 	total := len(types) * n
-	env.Parallel(total, func(i int) {
-		typ := types[i%len(types)]
-		g := genPair(typ, base+int64(i/len(types)))
+	// Reproducer pairs kept under /verif/fixed (see fixedPairs).
+	var fixed []*genCase
+	for _, t := range types {
+		fixed = append(fixed, fixedPairs(env, t)...)
+	}
+	env.Parallel(total+len(fixed), func(i int) {
+		var typ string
+		var g *genCase
+		if i >= total {
+			g = fixed[i-total]
+			typ = g.Type
+			rep.Count("fixed_pairs", 1)
+		} else {
+			typ = types[i%len(types)]
+			g = genPair(typ, base+int64(i/len(types)))
+		}
 		o := runConv(env, g, false)
 		live := ""
-		if (typ == "nsx" || typ == "panos") && (i/len(types))%4 == 1 {
+		if i < total && (typ == "nsx" || typ == "panos") && (i/len(types))%4 == 1 {
 			// Live session: what counts as the tool's own objects is
 			// decided by its live loading code, not by the harness.
 			if typ == "nsx" {
@@ -58,7 +71,7 @@ func checkEngine(id, tier, replay string) int {
 			live = "live:"
 			rep.Count("live_sessions_"+typ, 1)
 		}
-		if (typ == "asa" || typ == "ios") && (i/len(types))%8 == 5 && o.Exec == nil && o.Frame == nil && o.Inconclusive == "" && !o.Crashed {
+		if i < total && (typ == "asa" || typ == "ios") && (i/len(types))%8 == 5 && o.Exec == nil && o.Frame == nil && o.Inconclusive == "" && !o.Crashed {
 			// Complete live approve through the CLI simulator backed by
 			// the model; class keys as in file mode.
 			o = runConvLiveCisco(env, g)
